@@ -195,6 +195,7 @@ func (ctx *Ctx) reserveBB() int {
 
 // Internal getter.
 func (ctx *Ctx) get(path []byte, subset [][]byte) any {
+	ctx.bufX = nil
 	if len(path) == 0 || ctx.ln == 0 {
 		return nil
 	}
